@@ -403,6 +403,9 @@ func report(eng *Engine, spec *PropSpec, tier string, seed int, start time.Time,
 		if k.known != "" {
 			sum["known_finding"] = k.known
 		}
+		if len(vs[0].Stack) > 0 {
+			sum["stack"] = vs[0].Stack
+		}
 		vioSummaries = append(vioSummaries, sum)
 		switch {
 		case ok && isKnown:
@@ -424,6 +427,9 @@ func report(eng *Engine, spec *PropSpec, tier string, seed int, start time.Time,
 					why = "native replay did not reproduce it"
 				}
 				inconclusive = append(inconclusive, fmt.Sprintf("counterexample for %s/%s at %s (%s): %s", k.h, k.label, vs[0].Pos, vs[0].Msg, why))
+				if verbose && len(vs[0].Stack) > 0 {
+					fmt.Fprintln(os.Stderr, "---- target stack ----\n"+strings.Join(vs[0].Stack, "\n"))
+				}
 				if verbose && lastRaw != "" {
 					fmt.Fprintln(os.Stderr, "---- replay output ----\n"+lastRaw)
 				}
